@@ -48,6 +48,14 @@ func processScenarios(tier string) (out []Case2) {
 		for _, fr := range []string{"unsupported-fc", "qty-out-of-range", "bytecount-inconsistent"} {
 			sc := srvx.Scenario{Name: "P/bad-frame-" + fr, Callbacks: cb, Handler: "instant", Control: "none", Clients: [][]string{a, b}, Frames: []string{fr, "fc3"}}
 			out = append(out, Case2{Scenario: sc, Budget: d})
+			// two clients are refused at the same time (whatever the server keeps about refusals is shared between their
+			// connection goroutines)
+			sc2 := srvx.Scenario{Name: "P/both-refused-" + fr, Callbacks: cb, Handler: "instant", Control: "none", Clients: [][]string{bpar, bpar}, Frames: []string{fr, fr}}
+			out = append(out, Case2{Scenario: sc2, Budget: d})
+		}
+		{
+			sc2 := srvx.Scenario{Name: "P/both-handler-errors", Callbacks: cb, Handler: "typed-error", Control: "none", Clients: [][]string{bpar, bpar}}
+			out = append(out, Case2{Scenario: sc2, Budget: d})
 		}
 		// garbage that is not Modbus TCP at all, a truncated frame followed by silence, a header announcing a huge body
 		for name, hexs := range map[string]string{
@@ -134,6 +142,15 @@ func processLevel(tier string, res *ev.Result) {
 			execs++
 			steps += int64(r.Out.Steps)
 			outcomes[c.Scenario.Name+": "+r.Summary] = struct{}{}
+			// unsynchronised accesses to state shared between connection goroutines: the Go runtime ABORTS THE PROCESS on
+			// concurrent map writes, and any data race in the serving path is a crash or a corrupted reply waiting to happen -
+			// "malformed input never terminates the process or disturbs other connections"
+			for _, v := range r.Races {
+				cc := c
+				cc.Choices = x.Choices()
+				res.Violate(ev.Violation{Check: "process", Kind: v.Kind, Attrs: map[string]any{"race": v.Attrs["race"]},
+					Msg: fmt.Sprintf("%s cb=%04b d<=%d choices=%v: %s", c.Scenario.Name, c.Scenario.Callbacks, c.Budget, cc.Choices, v.Msg), Case: cc})
+			}
 			for _, v := range r.V {
 				attrs := map[string]any{"scenario": c.Scenario.Name}
 				for k, val := range v.Attrs {
